@@ -24,7 +24,11 @@ class RadarSession:
             self.srv.sock.close()  # nothing listens: radar stays in "Waiting for connection"
         argv = [os.path.join(binpath, "radar"), "--port", str(port), f"--lat={lat}", f"--long={lon}", "--log-folder", os.path.join(self.scratch, "logs")] + list(opts)
         self.argv = argv
-        self.p = procs.PtyProc(argv, rows=rows, cols=cols, cwd=self.scratch)
+        # every fourth radar session runs with logging switched on (RUST_LOG=trace): the arguments of
+        # the log lines of client and library are code too, and an operator may switch them on
+        RadarSession.counter = getattr(RadarSession, "counter", 0) + 1
+        env = {"RUST_LOG": "trace"} if RadarSession.counter % 4 == 0 else None
+        self.p = procs.PtyProc(argv, rows=rows, cols=cols, env=env, cwd=self.scratch)
         self.events = []
 
     # ---- control
@@ -135,12 +139,12 @@ class RadarSession:
 class Dump1090Session:
     """The `1090` client with stdout/stderr on pipes."""
 
-    def __init__(self, binpath, plan, scratch=None):
+    def __init__(self, binpath, plan, extra_opts=(), scratch=None):
         self.srv = procs.FeedServer(plan)
         self.srv.start()
         self.out = bytearray()
         self.err = bytearray()
-        self.p = subprocess.Popen([os.path.join(binpath, "1090"), "--host", "127.0.0.1", "--port", str(self.srv.port)], stdin=subprocess.DEVNULL, stdout=subprocess.PIPE, stderr=subprocess.PIPE)
+        self.p = subprocess.Popen([os.path.join(binpath, "1090"), "--host", "127.0.0.1", "--port", str(self.srv.port)] + list(extra_opts), stdin=subprocess.DEVNULL, stdout=subprocess.PIPE, stderr=subprocess.PIPE)
         self.t_last = time.monotonic()
         self.threads = [threading.Thread(target=self._rd, args=(self.p.stdout, self.out), daemon=True), threading.Thread(target=self._rd, args=(self.p.stderr, self.err), daemon=True)]
         for t in self.threads:
